@@ -8,12 +8,13 @@ META = dict(
 
 def run(ctx):
     n = ctx.pick(5, 6)
-    path, _ = ctx.tlc_gen("data", "PathNormGen", consts={"N": n}, workers=8, timeout=900)
+    m = ctx.pick(6, 9)
+    path, _ = ctx.tlc_gen("data", "PathNormGen", consts={"N": n, "M": m}, workers=8, timeout=1800)
     if not path:
         raise __import__("verif.core").core.Infra("PathNormGen wrote no vectors")
     recs = ctx.go_test(".", ["c26_"], "^TestVerifC26", infile=path, timeout=900)
     ctx.absorb(recs)
     ctx.traces_validated = ctx.evaluations
     ctx.exhaustive = True
-    ctx.rule = ("all token sequences of length 0..%d over 9 tokens; non-trivial = contains '.', '%%' or '//'" % n)
-    ctx.assumptions = ["token alphabet {/ . x %2e %2f %25 % ? #}", "length bound %d tokens" % n]
+    ctx.rule = ("all token sequences of length 0..%d over 9 byte-level tokens plus all sequences of length 0..%d over 5 segment-level tokens {/ x . .. %%2e}; non-trivial = contains '.', '%%' or '//'" % (n, m))
+    ctx.assumptions = ["token alphabet {/ . x %2e %2f %25 % ? #}", "length bounds %d / %d tokens" % (n, m)]
